@@ -240,7 +240,10 @@ def run_api(case: dict) -> CaseResult:
         sess.send_raw(data + extra, cuts=case.get("cuts"))
 
     dev.noise_handshake_hook = hook
-    cli = make_client(env, noise_psk=key_text(KEY, int(case.get("key_fmt", 0))), expected_name=expected)
+    via = int(case.get("exp_via", 0))
+    cli = make_client(env, noise_psk=key_text(KEY, int(case.get("key_fmt", 0))), expected_name=expected if not via else case.get("ctor_expected"))
+    if via == 1:
+        cli.expected_name = expected  # the public setter, before connecting
     got = []
 
     sent_expect: list = []
@@ -248,7 +251,12 @@ def run_api(case: dict) -> CaseResult:
     async def flow():
         from aioesphomeapi import api_pb2 as pb
 
-        await cli.connect(login=True)
+        if via == 2:  # ... or between the two public connect phases (the Noise hello is judged in the second)
+            await cli.start_connection()
+            cli.expected_name = expected
+            await cli.finish_connection(login=True)
+        else:
+            await cli.connect(login=True)
         cli.subscribe_states(got.append)
         # the responder must also be able to read what the client sends afterwards (sizes around the 256-byte carries)
         for n in case.get("send_sizes", []):
@@ -292,7 +300,7 @@ def run_api(case: dict) -> CaseResult:
         got_audio = [p_ for s in dev.sessions for (_q, t_, p_) in s.rx if t_ == 106]
         if got_audio != sent_expect:
             res.violations.append(Violation(ID, "c03:api:responder-read-different-messages", f"sent {len(sent_expect)} messages of sizes {case.get('send_sizes')}, responder decoded {[len(x) for x in got_audio]}"))
-    res.classes = ["api"] + (["name_rejected"] if not accept_name(name, expected) else [])
+    res.classes = ["api"] + (["name_rejected"] if not accept_name(name, expected) else []) + (["early_device_request"] if case.get("msgs") else []) + (["expected_name_via_setter"] if via else [])
     res.nontrivial = bool(case.get("cuts"))
     res.info = {"outcome": outcome}
     env.close()
@@ -311,7 +319,9 @@ def _case(draw, tier):
             "server_name": draw(st.sampled_from(NAMES)),
             "expected": draw(st.sampled_from([None, None, "dev", "kitchen"])),
             "cuts": draw(st.lists(st.integers(0, 70), max_size=4)),
-            "msgs": [],
+            # device requests riding in the very chunk that completes the handshake are answered like any other
+            "msgs": draw(st.sampled_from([[], [], [[7, {"h": ""}]], [[36, {"h": ""}]], [[7, {"h": ""}], [36, {"h": ""}]]])),
+            **({"exp_via": draw(st.sampled_from([1, 2])), "ctor_expected": draw(st.sampled_from([None, "other", "dev"]))} if draw(st.integers(0, 3)) == 0 else {}),
             "hs_payload": draw(st.sampled_from([0, 0, 0, 1, 16, 200])),
             "key_fmt": draw(st.sampled_from([0, 0, 0, 1, 2, 3, 4, 5])),
             "send_sizes": draw(st.lists(st.one_of(st.integers(0, 600), st.sampled_from([230, 233, 236, 250, 252, 255, 256, 488, 492, 508, 1000, 4090, 16000])), max_size=5)),
@@ -402,6 +412,13 @@ def enumerated(tier):
                 yield {"key": key, "eph": 3, "server_name": "dev", "expected": "dev", "msgs": msgs, "cuts": cuts, "kinds": [fmt % 4], "hs_payload": hsp, "key_fmt": fmt}
     for fmt in range(6):
         yield {"mode": "api", "server_name": "dev", "expected": "dev", "cuts": [], "msgs": [], "key_fmt": fmt, "hs_payload": (0, 7)[fmt % 2]}
+    for msgs in ([[7, {"h": ""}]], [[36, {"h": ""}]], [[7, {"h": ""}], [36, {"h": ""}], [7, {"h": ""}]]):
+        for cuts in ([], [30], [61]):
+            yield {"mode": "api", "server_name": "dev", "expected": "dev", "cuts": cuts, "msgs": msgs}
+    for via in (1, 2):
+        for ce in (None, "other", "dev"):
+            for name, exp in (("dev", "dev"), ("dev", "kitchen"), ("kitchen", None), (None, "dev")):
+                yield {"mode": "api", "server_name": name, "expected": exp, "cuts": [], "msgs": [], "exp_via": via, "ctor_expected": ce}
     for name in NAMES:
         for exp in (None, "dev", "kitchen"):
             for cuts in ([], [2], [5, 9], [30], [57, 58]):
